@@ -585,12 +585,13 @@ func runC11(r *Result, d *drv.Driver, tier string, seed int64, replay string) {
 	c11ShutdownFirst(r, d)
 	c11AfterServeFailed(r)
 	c11HandshakeFailure(r)
+	c11HandshakePending(r)
 	maxLen := 5
 	if tier == "thorough" {
 		maxLen = 7
 	}
 	r.Rule = fmt.Sprintf("exhaustive: every schedule up to length %d over {connection arrives and is served, request put in flight (handler blocked), handler released, client closes, Shutdown called, Shutdown landing between Accept returning and registration, context cancelled} that is a run of the Lean transition system; "+
-		"each is replayed on the real Server through an injected listener (Shutdown is called from inside Accept to place it deterministically), blocking handlers and a cancellable context; observed: Shutdown's and Serve's return values, sessions started / still open / connections closed late, and the order of Shutdown's return relative to session starts and ends. plus: Shutdown before Serve; Shutdown after Serve ended by itself on a permanent Accept error with sessions still open; Shutdown after the TLS handshake of an accepted connection failed (the connection must have been closed); Shutdown with a short context while a session sits inside the session-auth / request-auth callback or a handler. distinct = one per schedule; non-trivial = contains Shutdown", maxLen)
+		"each is replayed on the real Server through an injected listener (Shutdown is called from inside Accept to place it deterministically), blocking handlers and a cancellable context; observed: Shutdown's and Serve's return values, sessions started / still open / connections closed late, and the order of Shutdown's return relative to session starts and ends. plus: Shutdown before Serve; Shutdown after Serve ended by itself on a permanent Accept error with sessions still open; Shutdown after the TLS handshake of an accepted connection failed (the connection must have been closed); Shutdown while the only session is still in (or before) its TLS handshake, which then completes and carries one request; Shutdown with a short context while a session sits inside the session-auth / request-auth callback or a handler. distinct = one per schedule; non-trivial = contains Shutdown", maxLen)
 	r.Exhaustive = true
 	alphabet := []string{"A", "Q", "R", "C", "S", "L", "X"}
 	var seqs [][]string
@@ -712,5 +713,112 @@ func runC11(r *Result, d *drv.Driver, tier string, seed int64, replay string) {
 		for _, v := range results[i].viol {
 			r.find(Finding{Kind: "violation", What: v, Input: map[string]string{"schedule": key}, Actual: results[i].obs})
 		}
+	}
+}
+
+// c11HandshakePending: Shutdown lands while the ONLY session is a started one that has not finished (or even begun) its TLS
+// handshake. "Shutdown returns nil only when every session that was started has ended and its connection has been closed - so no
+// callback or handler starts or is still running after it": the peer handshakes 300 ms after Shutdown was called, sends one
+// request, gets its answer, and leaves; Shutdown must return nil after that, not before, and no handler may start after it
+// returned.
+func c11HandshakePending(r *Result) {
+	ca := tlsm.NewCA("c11p-ca")
+	serverCert := tlsm.Leaf(ca, tlsm.LeafOpts{Host: "kmip.test"})
+	for _, before := range []string{"nothing sent yet", "ClientHello sent, handshake not finished"} {
+		key := "TLS-serving Server, one accepted connection (" + before + "), Shutdown, then the peer completes the handshake, sends one request and leaves"
+		crumb("C11 " + key)
+		r.eval(key, true)
+		cfg := &tls.Config{Certificates: []tls.Certificate{serverCert}, ClientCAs: ca.Pool}
+		kmip.DefaultServerTLSConfig(cfg)
+		s := &kmip.Server{TLSConfig: cfg}
+		var sdReturned int32
+		var lateHandler int32
+		s.Handle(kmip.OPERATION_ACTIVATE, func(ctx *kmip.RequestContext, item *kmip.RequestBatchItem) (interface{}, error) {
+			if atomic.LoadInt32(&sdReturned) == 1 {
+				atomic.StoreInt32(&lateHandler, 1)
+			}
+			return kmip.ActivateResponse{UniqueIdentifier: "x"}, nil
+		})
+		sc, cc := rec.Pipe()
+		rc := rec.NewConn(sc, 1)
+		l := rec.NewListener()
+		l.Push(rec.AcceptStep{Conn: tls.Server(rc, cfg)})
+		init := make(chan struct{})
+		ret := make(chan error, 1)
+		go func() { ret <- s.Serve(l, init) }()
+		<-init
+		waitFor(func() bool { return l.Pending() == 0 }, 2*time.Second)
+		time.Sleep(30 * time.Millisecond) // the session goroutine is in (or about to enter) the handshake
+		_ = cc.SetDeadline(time.Now().Add(5 * time.Second))
+		ccfg := &tls.Config{RootCAs: ca.Pool, ServerName: "kmip.test", Certificates: []tls.Certificate{tlsm.Leaf(ca, tlsm.LeafOpts{Host: "client.test", Client: true})}, MinVersion: tls.VersionTLS12}
+		tc := tls.Client(cc, ccfg)
+		hsDone := make(chan error, 1)
+		startHS := make(chan struct{})
+		go func() {
+			if before == "nothing sent yet" {
+				<-startHS
+			}
+			hsDone <- tc.Handshake()
+		}()
+		if before != "nothing sent yet" {
+			time.Sleep(30 * time.Millisecond)
+		}
+		sdRet := make(chan error, 1)
+		var sdAt time.Time
+		go func() {
+			ctx, cancel := context.WithTimeout(context.Background(), 4*time.Second)
+			defer cancel()
+			e := s.Shutdown(ctx)
+			sdAt = time.Now()
+			atomic.StoreInt32(&sdReturned, 1)
+			sdRet <- e
+		}()
+		time.Sleep(300 * time.Millisecond)
+		early := false
+		select {
+		case e := <-sdRet:
+			early = true
+			sdRet <- e
+		default:
+		}
+		close(startHS)
+		obs := ""
+		if err := <-hsDone; err != nil {
+			obs = "handshake failed: " + err.Error() + " "
+		} else {
+			req := kmip.Request{Header: kmip.RequestHeader{Version: kmip.ProtocolVersion{Major: 1, Minor: 4}, BatchCount: 1},
+				BatchItems: []kmip.RequestBatchItem{{Operation: kmip.OPERATION_ACTIVATE, RequestPayload: kmip.ActivateRequest{UniqueIdentifier: "a"}}}}
+			var resp kmip.Response
+			err := kmip.NewEncoder(tc).Encode(&req)
+			if err == nil {
+				err = kmip.NewDecoder(tc).Decode(&resp)
+			}
+			obs = fmt.Sprintf("request-answered=%v ", err == nil && len(resp.BatchItems) == 1)
+		}
+		cc.Close()
+		closedAt := time.Time{}
+		select {
+		case <-rc.Closed():
+			closedAt = time.Now()
+		case <-time.After(3 * time.Second):
+		}
+		var sdErr error
+		select {
+		case sdErr = <-sdRet:
+		case <-time.After(5 * time.Second):
+			sdErr = fmt.Errorf("Shutdown did not return")
+		}
+		_ = closedAt
+		_ = sdAt
+		obs += fmt.Sprintf("shutdown-returned-while-the-session-was-alive=%v shutdown=%v handler-started-after-shutdown-returned=%v", early, sdErr, atomic.LoadInt32(&lateHandler) == 1)
+		want := "request-answered=true shutdown-returned-while-the-session-was-alive=false shutdown=<nil> handler-started-after-shutdown-returned=false"
+		if obs != want {
+			r.find(Finding{Kind: "violation", What: "Shutdown did not wait for a started session that was still in its TLS handshake", Input: key, Expect: want, Actual: obs})
+		}
+		select {
+		case <-ret:
+		case <-time.After(3 * time.Second):
+		}
+		r.Stats["handshake-pending-scenarios"]++
 	}
 }
